@@ -960,6 +960,7 @@ def guards(body, bb):
         for s in reversed(bl["stmts"]):
             if s["k"] == "assign" and s["place"] == l and s["rv"]["k"] == "discr":
                 dpl = s["rv"]["place"]
+                dty = s["rv"].get("ty") or ""
                 break
         succs = set(body.succ(i))
         if dpl is not None:
@@ -970,7 +971,14 @@ def guards(body, bb):
                     out.append(("V%d" % v, e, i))
             tg = t["otherwise"]
             if all(tg2 != tg for _, tg2 in t["targets"]) and body.edge_dominates((i, tg), bb) and bb in body.reachable(tg):
-                out.append(("!V" + ",".join(str(v) for v, _ in t["targets"]), e, i))
+                listed = [v for v, _ in t["targets"]]
+                nvar = _n_variants(body, dty)
+                if nvar == 2 and len(listed) == 1 and listed[0] in (0, 1):
+                    # two-variant type (Option, Result, ...): `not variant k` IS `variant 1-k` — same guard string whether the source
+                    # says `if let Some(x) = .. else` or `match { Some(x) => .., None => .. }`
+                    out.append(("V%d" % (1 - listed[0]), e, i))
+                else:
+                    out.append(("!V" + ",".join(str(v) for v in listed), e, i))
             continue
         if t["ty"] != "bool":
             e = expr(body, t["op"])
@@ -1000,6 +1008,16 @@ def guards(body, bb):
             pol = "F" if pol == "T" else "T"
         norm.append((pol, e, i))
     return norm
+
+
+def _n_variants(body, ty):
+    base = (ty or "").split("<")[0]
+    if base in ("std::option::Option", "std::result::Result", "std::ops::control_flow::ControlFlow"):
+        return 2
+    a = body.crate.adts.get(base) if hasattr(body.crate, "adts") else None
+    if a and a.get("kind") == "enum":
+        return len(a.get("variants", []))
+    return None
 
 
 def guard_strs(body, bb):
